@@ -297,29 +297,49 @@ def run(c):
                                input=dict(ctx, run=k + 1, rules="harness/cmd/c14 engRules", target="harness/cmd/c14 engTarget"),
                                expected=exp, observed=got)
                 c.coverage["engine_runs"] = c.coverage.get("engine_runs", 0) + len(eo.get("runs") or [])
-            # ---- engine-level matrix: every relation filter x every probe of a generated target, several source orders
-            mx = o.get("matrix")
-            if mx is not None:
+            # ---- engine-level sections: every relation filter x every probe of a generated target
+            #   matrix     nested aliases / same-printing distinct types / interface spellings, several source orders
+            #   untyped    captures whose recorded type is an untyped basic type (operands of constant expressions, conditions)
+            #   lookalike  run-time / load-time lookups of `pkg.T` from packages depending on look-alike import paths
+            sections = (
+                ("matrix", "engine_matrix", "harness/cmd/c14 emMatrix",
+                 "(nested aliases, same-printing distinct types, one engine over several type-checks / source orders)"),
+                ("untyped", "engine_untyped", "harness/cmd/c14 emUntyped",
+                 "(the filter must answer for the type go/types RECORDED for the capture -- an untyped constant type is identical to "
+                 "itself only, never to its default type)"),
+                ("lookalike", "engine_lookalike", "harness/cmd/c14 emLookalike",
+                 "(a fully-qualified name stands for the package with exactly that import path, whatever look-alike paths the "
+                 "analysed package depends on)"),
+            )
+            for skey, cov, where, why in sections:
+                mx = o.get(skey)
+                if mx is None:
+                    continue
                 if mx.get("load_err"):
-                    c.obligation("engine-matrix-load:" + fname, False, mx["load_err"])
+                    c.obligation("%s-load:%s" % (cov.replace("_", "-"), fname), False, mx["load_err"])
                 for p in mx.get("panics") or []:
-                    c.fail("oracle", "Run fails on the engine-level matrix target", input=dict(ctx, run=p), observed=p, expected="reports")
+                    c.fail("oracle", "Run fails on the %s target" % cov.replace("_", " "), input=dict(ctx, run=p, target=where),
+                           observed=p, expected="reports")
                 for s_ in mx.get("stray") or []:
-                    c.obligation("engine-matrix-reports-belong-to-probes:" + fname, False, s_)
+                    c.obligation("%s-reports-belong-to-probes:%s" % (cov.replace("_", "-"), fname), False, s_)
                 c.evaluations += mx.get("probes", 0)
                 for d in (mx.get("diffs") or [])[:6]:
-                    c.fail("oracle", "engine filter %s on a probe of type %s: outcome differs from go/types inside the run's own type-check "
-                           "(nested aliases, same-printing distinct types, one engine over several type-checks / source orders)"
-                           % (d["filter"], d["type"]),
+                    c.fail("oracle", "engine filter %s on a probe of type %s: outcome differs from go/types inside the run's own type-check %s"
+                           % (d["filter"], d["type"], why),
                            input=dict(ctx, filter=d["filter"], probe_expr=d["expr"], probe_type=d["type"], function=d["scope"],
-                                      declarations=d.get("decls", ""), run=d["run"], function_order=d["order"],
-                                      target="harness/cmd/c14 emMatrix"),
+                                      declarations=d.get("decls", ""), run=d["run"], function_order=d.get("order"),
+                                      target=where),
                            expected=d["expected"], observed=d["observed"])
-                c.coverage["engine_matrix_rules"] = mx.get("rules", 0)
-                c.coverage["engine_matrix_probes"] = c.coverage.get("engine_matrix_probes", 0) + mx.get("probes", 0)
-                c.coverage["engine_matrix_expected_reports"] = c.coverage.get("engine_matrix_expected_reports", 0) + mx.get("positive", 0)
-                c.coverage["engine_matrix_same_printing_probes"] = mx.get("same_printing_probes", 0)
-                c.coverage["engine_matrix_nested_alias_probes"] = mx.get("nested_alias_probes", 0)
+                if mx.get("probes"):
+                    c.nontrivial.add((mode, cov, mx.get("probes"), mx.get("positive")))
+                c.coverage[cov + "_rules"] = mx.get("rules", 0)
+                c.coverage[cov + "_probes"] = c.coverage.get(cov + "_probes", 0) + mx.get("probes", 0)
+                c.coverage[cov + "_expected_reports"] = c.coverage.get(cov + "_expected_reports", 0) + mx.get("positive", 0)
+                if skey == "matrix":
+                    c.coverage["engine_matrix_same_printing_probes"] = mx.get("same_printing_probes", 0)
+                    c.coverage["engine_matrix_nested_alias_probes"] = mx.get("nested_alias_probes", 0)
+                elif skey == "untyped":
+                    c.coverage["engine_untyped_probes_with_untyped_capture"] = mx.get("nested_alias_probes", 0)
             c.coverage["pool_size"] = n
             c.coverage["interfaces_in_pool"] = len(ifs)
             c.coverage["identical_pairs_per_universe"] = sum(r.count("1") for r in o["g1"])
